@@ -145,7 +145,10 @@ def strip_comments(src):
 
 
 # tie T: which GenEq files (regenerated definitions = model) each property relies on
-_DRV = ["GenEq/GenEqSrcDriver", "GenEq/GenEqStrat", "GenEq/GenEqSrcRewriters", "GenEq/GenEqSplit", "GenEq/GenEqSrcSplit"]
+# the driver properties are proved for EVERY strategy that talks to the driver through values (no aliasing of the
+# testcase objects it has handed over): that assumption is about the strategies' code, so their source pins belong to the tie
+_DRV = ["GenEq/GenEqSrcDriver", "GenEq/GenEqStrat", "GenEq/GenEqSrcRewriters", "GenEq/GenEqSplit", "GenEq/GenEqSrcSplit",
+        "GenEq/GenEqSrcMinimize", "GenEq/GenEqSrcPairs", "GenEq/GenEqSrcCollapse"]
 _MIN = ["GenEq/GenEqTestcase", "GenEq/GenEqUtil", "GenEq/GenEqStrat", "GenEq/GenEqSplit",
         "GenEq/GenEqSrcMinimize"] + _DRV
 _SPL = ["GenEq/GenEqSplit", "GenEq/GenEqSrcSplit"]
@@ -162,7 +165,7 @@ TIES = {
     "C07": ["GenEq/GenEqTestcase", "GenEq/GenEqUtil", "GenEq/GenEqSplit"],
     "C17": ["GenEq/GenEqSrcCli", "GenEq/GenEqStrat"],
     "C18": ["GenEq/GenEqStatus", "GenEq/GenEqSrcRun"],
-    "C19": ["GenEq/GenEqSrcInterest"],
+    "C19": ["GenEq/GenEqSrcInterest", "GenEq/GenEqSrcRun", "GenEq/GenEqStatus"],      # outputs / diff_test judge what timed_run captured
     "C20": ["GenEq/GenEqTemp", "GenEq/GenEqSrcDriver", "GenEq/GenEqSrcCli"],
 }
 
@@ -333,6 +336,10 @@ class Check:
         os.makedirs(os.path.join(VERIF, "evidence", "replays"), exist_ok=True)
         rc = 0
         pr = self.proof or {}
+        # code under test may have printed without a final newline (outputs.py's "[Found string in: ...] "): the verdict
+        # lines below must START their line
+        sys.stdout.flush()
+        print()
         for key, h in self.known_hits.items():
             print(f"KNOWN-FINDING: property={self.pid} {h['what']} [{key}; {h['n']} hit(s) this run]")
         replay_path = None
